@@ -79,3 +79,7 @@ def use_lemma(name, **kw):
 
 def assume(x):
     return True
+
+
+def intstr(x):
+    return str(int(x))
